@@ -151,7 +151,8 @@ static void case_cell(H3Index a, int whole) {
         }
     }
     /* vertex numbers outside the range */
-    static const int badn[] = {6, 7, -1, 8, 100, -2147483647 - 1, 2147483647, 5};
+    /* incl. values whose low 3, 8 or 16 bits are a legal vertex number */
+    static const int badn[] = {6, 7, -1, 8, 100, -2147483647 - 1, 2147483647, 5, 9, 13, 16, 256, 258, 261, 515, 65536, 65539, -251, -65533, (1 << 30) + 2, 0x7fffff00 + 4};
     for (unsigned t = 0; t < sizeof badn / sizeof badn[0]; t++) {
         if (badn[t] == 5 && !pent) continue;
         H3Index one = 0;
